@@ -145,6 +145,14 @@ def check_case(case, ctx):
     ds, sch = case["ds"], case["scheme"]
     common.set_case(ctx, case)
     dataset = libx.mk_dataset(ds)
+    if gen.digest(ds)[1] in "012":
+        # the same rankings given to the Ranking constructor in other valid forms (generators, map objects, tuples)
+        import random
+        rf = random.Random(gen.digest(ds))
+        st_f, d_f = call(libx.mk_dataset_forms, ds, [rf.choice(libx.FORMS) for _ in ds])
+        if st_f == "ok":
+            dataset = d_f
+            ctx.count("datasets_built_from_other_input_forms")
     scheme = libx.mk_scheme(sch)
     exact = gen.is_dyadic(sch)
     ctx.count("class:" + case.get("dcls", "?"))
@@ -299,6 +307,9 @@ def reach(counters, tier, info):
         v = counters.get("tables_after_in_place_mutation:changed:" + mut, 0)
         out.append({"name": f"... where the removal ({mut}) changed the rankings", "observed": v, "required": 25,
                     "ok": v >= 25})
+    v = counters.get("datasets_built_from_other_input_forms", 0)
+    out.append({"name": "datasets whose rankings were given as generators / map objects / tuples", "observed": v,
+                "required": 100, "ok": v >= 100})
     v = counters.get("reshape_twin_tables", 0)
     out.append({"name": "tables of reshape twins (same matrix content, other shape) built in a row", "observed": v,
                 "required": 300, "ok": v >= 300})
